@@ -178,6 +178,11 @@ def multiclass_cases(rng: Rng, tier):
         C = rng.choice([2, 3, 4])
         n = rng.choice([1, 2, 3, 4, 9, 33])
         rows = [rng.grid(C, L3) for _ in range(n)]
+        if rng.random() < 0.25:
+            # raw logits: the same 3-level structure (ties included) on a scale that passes num_classes and goes below zero —
+            # a 2-D input holds SCORES, whose size has nothing to do with the number of classes
+            sc, off = rng.choice([(16, -4), (64, -20), (8, 2)])
+            rows = [[v * sc + off for v in r] for r in rows]
         present = rng.sample(range(C), rng.randint(1, C))
         ls = [rng.choice(present) for _ in range(n)]
         fn = rng.choice(fns)
@@ -376,7 +381,7 @@ def dtype_cases(rng: Rng, tier):
                 yield fn, kw, v, ("logits", str(dt))
         # (c) binary: narrow / bool targets, low-precision scores past 256 and 2048 samples
         for fn in ["binary_accuracy", "binary_precision", "binary_recall", "binary_f1_score", "binary_confusion_matrix"]:
-            for dt, n in [(torch.uint8, 50), (torch.int8, 50), (torch.int32, 50), (torch.bool, 50), (torch.float16, 2300), (torch.bfloat16, 600), (torch.float64, 300)]:
+            for dt, n in [(torch.uint8, 50), (torch.int8, 50), (torch.int32, 50), (torch.bool, 50), (torch.uint8, 300), (torch.int8, 200), (torch.bool, 300), (torch.float16, 2300), (torch.bfloat16, 600), (torch.float64, 300)]:
                 kw = {"input": ft(rng.grid(n)), "target": it([rng.choice([0, 1]) for _ in range(n)]), "threshold": float(rng.choice(G5))}
                 v = dict(kw)
                 if dt.is_floating_point:
@@ -384,6 +389,23 @@ def dtype_cases(rng: Rng, tier):
                 else:
                     v["target"] = kw["target"].to(dt)
                 yield fn, kw, v, ("binary", str(dt))
+        # (e) binary scores given as INTEGER tensors (ratings 0..5, hard 0/1 predictions, bool masks) with thresholds inside and
+        #     outside (0, 1]: the prediction is `score >= threshold` whatever the storage dtype of the score
+        for fn in ["binary_accuracy", "binary_precision", "binary_recall", "binary_f1_score", "binary_confusion_matrix"]:
+            for dt, hi, thrs in [(torch.int64, 5, [0.0, 1.0, 2.0, 3.0, 2.5, 0.5]), (torch.int32, 1, [0.0, 0.5, 1.0, 2.0]), (torch.bool, 1, [0.0, 0.5, 1.0, 2.0])]:
+                n = 24
+                xs = [rng.randint(0, hi) for _ in range(n)]
+                kw = {"input": ft(xs), "target": it([rng.choice([0, 1]) for _ in range(n)]), "threshold": float(rng.choice(thrs))}
+                yield fn, kw, {**kw, "input": kw["input"].to(dt)}, ("int-scores", str(dt))
+        # (f) two classes with the labels stored as bool (class ids False / True): counts must not inherit the label dtype
+        for fn, avg in [("multiclass_accuracy", "micro"), ("multiclass_precision", "micro"), ("multiclass_recall", "micro"), ("multiclass_f1_score", "micro")]:
+            for n in (7, 12, 300):
+                ps, ls = [rng.choice([0, 1]) for _ in range(n)], [rng.choice([0, 1]) for _ in range(n)]
+                kw = {"input": it(ps), "target": it(ls), "num_classes": 2, "average": avg}
+                yield fn, kw, {**kw, "target": kw["target"].to(torch.bool)}, ("bool-class-ids", "torch.bool")
+                rows = [rng.grid(2, L3) for _ in range(n)]
+                kw = {"input": ft([x for r in rows for x in r], shape=(n, 2)), "target": it(ls), "num_classes": 2, "average": avg}
+                yield fn, kw, {**kw, "target": kw["target"].to(torch.bool)}, ("bool-class-ids-logits", "torch.bool")
         # (d) multilabel / top-k multilabel: 0/1 label masks in narrow dtypes
         for crit in ["exact_match", "hamming", "overlap", "contain", "belong"]:
             for dt in [torch.uint8, torch.int8, torch.int32, torch.bool]:
